@@ -12,7 +12,7 @@ import coqemit as E
 
 ID = "C20"
 PROPS = "Props/C20.v"
-IMPORTS = "From PV Require Import Lib.Common Model.C20_Loop."
+IMPORTS = "From PV Require Import Lib.Common Model.C20_Loop Model.C20_Session."
 SHARD = 12
 LEVEL_TEXT = ("Coq theorems over an executable heap model (locations, dicts key->leaf, sharing, copy.deepcopy with memo) of "
               "RecurrentSelectionBreedingProgram.evolve/advance/reset/initialize with operators and logbook as ARBITRARY heap "
@@ -27,10 +27,24 @@ LEVEL_TEXT = ("Coq theorems over an executable heap model (locations, dicts key-
               "language used by the correspondence is proved to be such an operator.  The model is tied to the code by evaluating it "
               "inside Coq against traces (operator, t_cur, t_max, rep, identities and contents of every argument, miscout) recorded by "
               "instrumented operator/logbook subclasses passed through the public constructor, incl. error paths (wrong return type, "
-              "raising operator/logbook, miscout keys colliding with parameter names, missing start containers).")
+              "raising operator/logbook, miscout keys colliding with parameter names, missing start containers).  "
+              "Phase 2: SESSIONS - one programme object driven by sequences of evolve / advance / reset / initialize / is_initialized, "
+              "every property setter (start_*, working containers, t_cur, t_max, the four operators, the initialisation operator), a new "
+              "logbook, copy.copy and copy.deepcopy of the programme, continuing on the state a raising command left - are modelled "
+              "(Model/C20_Session.v) and compared in Coq event by event with a marker (succeeded?, t_cur, rep) after every command; "
+              "theorems: across any such session of evolve calls / clock and t_max setters / operator and logbook replacement / shallow "
+              "copies the start state is never written and every replicate starts fresh and equal to it, advance from any clock value "
+              "makes the eight calls per generation at t, t+1, .., sessions compose.  The ATTRIBUTE LAYER (getter, setter and type check of "
+              "each of the 17 properties, the constructor's assignments, the operator type guards) is regenerated from the source on every "
+              "run (Gen/C20_Kernel.v) next to the method bodies (Gen/C20_Program.v), proved equal to the model's tables by reflexivity, "
+              "with theorems about the generated tables: what the constructor establishes and that it accepts nothing else, set/get laws, "
+              "agreement of the session model's setter commands with the generated setters.")
 LEVEL_NOTE = ("trusted: Coq kernel + vm_compute; the action-language interpreter in this module (Python side of the operator "
               "programs) and its Gallina twin; copy.deepcopy modelled for dict -> list-of-int containers (two levels, memo per call); "
-              "theorems are about the Gallina model, the tie to the code is differential on generated (heap, programs, calls) cases")
+              "theorems are about the Gallina model, the tie to the code is differential on generated (heap, programs, calls / sessions) "
+              "cases plus the two translators (method bodies, attribute layer) whose output is proved equal to the model; the translators' "
+              "name tables (property / attribute / parameter numbering) and check_is_dict / check_is_int (core/error, not anchored) are trusted; "
+              "copy.deepcopy(programme) is modelled as one memo over the ten container slots with the instrumented operators shared")
 TECHNIQUE = "Coq proof over an executable heap/trace model of the loop; in-Coq vm_compute correspondence with instrumented runs"
 RULE = ("case = (leaf lists, dicts with possibly shared leaves, start_* slots or None, initop result, t_max, rep0, "
         "[evolve(nrep, ngen, loginit)...], action program per operator and per logbook method); one PRNG: ~170 systematic corners "
@@ -38,11 +52,25 @@ RULE = ("case = (leaf lists, dicts with possibly shared leaves, start_* slots or
         "type in every slot of every operator, raising operator/logbook method, every miscout key colliding with a parameter name, "
         "mating configuration aliased/remembered), a sweep of nrep,ngen in -1..3 x loginit with random programs, and random cases incl. "
         "uninitialised/partially initialised programmes, the same dict in several start slots, two evolve calls, error-raising programs; "
-        "non-trivial = some call with nrep >= 2 and ngen >= 1, at least one in-place-mutating action, no error; distinct by SHA-256")
+        "phase 2: ~90 systematic sessions (each start slot replaced / cleared / given a non-dict through its setter between two runs, "
+        "working containers handed in through their setters, start state given through setters only, explicit initialize, replaced "
+        "initialisation operator, advance and reset as public calls incl. before any reset and after a failed reset, clock and t_max "
+        "setters incl. negative and non-int values, each operator replaced after a clean / raising / wrong-return run, each logbook "
+        "method raising then a new logbook, operators remembering containers across runs and across a replaced start state, copy.copy "
+        "and copy.deepcopy of the programme incl. aliased slots, verbose runs, extra keyword arguments, default loginit) and random "
+        "sessions of 2-7 commands; entry points of the anchored modules are enumerated at run time (a new public member, a changed "
+        "parameter list, a copy/attribute hook fails the check until classified in COVERED/SKIPPED); after construction and after every "
+        "command every getter is compared with its private attribute, every accepted setter with its getter, and the check_is_* guards "
+        "of the eight anchored modules are exercised; events carry the serial number of the operator / logbook instance that received them; "
+        "non-trivial = some evolve with nrep >= 2 and ngen >= 1, at least one in-place-mutating action, no error; distinct by SHA-256")
 TRUSTED = ["the Python interpreter of the action language (harness/props/c20.py:_run_prog) is the twin of Model/C20_Loop.v:act",
            "copy.deepcopy on dict-of-list containers: fresh dict, fresh leaves, sharing inside one container preserved (memo), "
            "sharing across the five containers lost (five separate deepcopy calls) - mirrored by the model",
-           "object identity observed through id() of objects kept alive for the whole run, canonicalised to first-occurrence numbers"]
+           "object identity observed through id() of objects kept alive for the whole run, canonicalised to first-occurrence numbers",
+           "harness/translate/c20_kernel.py: the numbering of properties, private attributes and constructor parameters; check_is_dict / "
+           "check_is_int are isinstance tests (pybrops/core/error, not anchored)",
+           "copy.copy / copy.deepcopy of the programme follow Python's generic protocol (the audit rejects __copy__/__deepcopy__/__reduce__/"
+           "__getstate__/__setattr__ hooks on the class); the instrumented operators are shared by deepcopy (__deepcopy__ = identity)"]
 ASSUMPTIONS = ["state containers are dicts whose values are mutable lists of ints (two-level heap); deeper object graphs are not modelled",
                "operators reach the programme state only through their arguments and their own private memory, which is disjoint "
                "from the start containers when evolve is entered (an operator holding a reference to start_* can of course modify it)"]
@@ -137,7 +165,7 @@ def _classes():
     def opcall(self, tag, roots, t_cur, t_max, miscout, with_mcfg_in, with_mcfg_out):
         ctx = self.ctx
         rs, dat = ctx.snap(roots)
-        ev = {"tag": tag, "t": t_cur, "tm": t_max, "rep": None, "roots": rs, "dat": dat,
+        ev = {"tag": tag, "t": t_cur, "tm": t_max, "rep": None, "roots": rs, "dat": dat, "who": getattr(self, "serial", 0),
               "misc": [[-2, 0]] if not isinstance(miscout, dict) else
                       [[MISC_NAMES.index(k) if k in MISC_NAMES else -1, v] for k, v in miscout.items()]}   # must arrive empty
         ctx.trace.append(ev)
@@ -151,30 +179,33 @@ def _classes():
     def initcall(self, miscout):
         # what the programme passes for the interface's `miscout` parameter: None -> [], nothing at all -> [[-3, 0]]
         got = [] if miscout is None else ([[-3, 0]] if miscout is _MISSING else [[-2, 0]])
-        self.ctx.trace.append({"tag": TAGS["initialize"], "t": 0, "tm": 0, "rep": None, "roots": [], "dat": [], "misc": got,
+        self.ctx.trace.append({"tag": TAGS["initialize"], "t": 0, "tm": 0, "rep": None, "roots": [], "dat": [], "misc": got, "who": getattr(self, "serial", 0),
                                "ret": {"roots": [], "dat": [], "misc": []}})
         return tuple(self.result)
-    class Init(InitializationOperator):
+    class _Shared:
+        """copy.deepcopy(programme) shares the instrumented operators (they hold the recorder)"""
+        def __deepcopy__(self, memo): return self
+    class Init(_Shared, InitializationOperator):
         """gives miscout a default (so it also works when the argument is omitted; the omission is recorded)"""
         def __init__(self, ctx, result): self.ctx = ctx; self.result = result
         def initialize(self, miscout=_MISSING, **kwargs): return initcall(self, miscout)
-    class InitStrict(InitializationOperator):
+    class InitStrict(_Shared, InitializationOperator):
         """follows the abstract signature literally: miscout is a required parameter"""
         def __init__(self, ctx, result): self.ctx = ctx; self.result = result
         def initialize(self, miscout, **kwargs): return initcall(self, miscout)
-    class PSel(ParentSelectionOperator):
+    class PSel(_Shared, ParentSelectionOperator):
         def __init__(self, ctx, prog): self.ctx = ctx; self.prog = prog
         def pselect(self, genome, geno, pheno, bval, gmod, t_cur, t_max, miscout, **kwargs):
             return opcall(self, TAGS["pselect"], [genome, geno, pheno, bval, gmod], t_cur, t_max, miscout, False, True)
-    class Mate(MatingOperator):
+    class Mate(_Shared, MatingOperator):
         def __init__(self, ctx, prog): self.ctx = ctx; self.prog = prog
         def mate(self, mcfg, genome, geno, pheno, bval, gmod, t_cur, t_max, miscout, **kwargs):
             return opcall(self, TAGS["mate"], [genome, geno, pheno, bval, gmod, mcfg], t_cur, t_max, miscout, True, False)
-    class Eval(EvaluationOperator):
+    class Eval(_Shared, EvaluationOperator):
         def __init__(self, ctx, prog): self.ctx = ctx; self.prog = prog
         def evaluate(self, genome, geno, pheno, bval, gmod, t_cur, t_max, miscout, **kwargs):
             return opcall(self, TAGS["evaluate"], [genome, geno, pheno, bval, gmod], t_cur, t_max, miscout, False, False)
-    class SSel(SurvivorSelectionOperator):
+    class SSel(_Shared, SurvivorSelectionOperator):
         def __init__(self, ctx, prog): self.ctx = ctx; self.prog = prog
         def sselect(self, genome, geno, pheno, bval, gmod, t_cur, t_max, miscout, **kwargs):
             return opcall(self, TAGS["sselect"], [genome, geno, pheno, bval, gmod], t_cur, t_max, miscout, False, False)
@@ -193,7 +224,7 @@ def _classes():
             ctx = self.ctx
             rs, dat = ctx.snap(roots)
             ctx.trace.append({"tag": TAGS["log_" + {"init": "initialize", "psel": "pselect", "mate": "mate", "eval": "evaluate", "ssel": "sselect"}[name]],
-                              "t": t_cur, "tm": t_max, "rep": self._rep, "roots": rs, "dat": dat,
+                              "t": t_cur, "tm": t_max, "rep": self._rep, "roots": rs, "dat": dat, "who": getattr(self, "serial", 0),
                               "misc": [[MISC_NAMES.index(k) if k in MISC_NAMES else -1, v] for k, v in kwargs.items()]})
             ev = ctx.trace[-1]
             env = list(roots[:NSLOT]) + [roots[NSLOT] if len(roots) > NSLOT else None]
@@ -224,7 +255,48 @@ def _build_heap(case, ctx):
     for o in dicts: ctx.num(o)
     return leaves, dicts
 
+PROP_NAMES = ["start_genome", "start_geno", "start_pheno", "start_bval", "start_gmod", "genome", "geno", "pheno", "bval", "gmod",
+              "initop", "pselop", "mateop", "evalop", "sselop", "t_cur", "t_max"]
+S_NAMES = ["genome", "geno", "pheno", "bval", "gmod"]
+
+def _getter_faults(prog):
+    """every public property must read the private attribute of its own name (where that exists)"""
+    bad = []
+    for n in PROP_NAMES:
+        if "_" + n in prog.__dict__:
+            try:
+                v = getattr(prog, n)
+            except Exception as e:
+                bad.append("%s getter raised %s" % (n, type(e).__name__)); continue
+            w = prog.__dict__["_" + n]
+            if not (v is w): bad.append("getter %s does not return attribute _%s" % (n, n))
+    return bad
+
+def _type_guard_faults(prog, ops, book):
+    """the check_is_* functions of the anchored modules accept the right objects and reject another one with TypeError"""
+    import importlib
+    bad = []
+    table = [("pybrops.breed.arch.RecurrentSelectionBreedingProgram", "check_is_RecurrentSelectionBreedingProgram", prog),
+             ("pybrops.breed.arch.BreedingProgram", "check_is_BreedingProgram", prog),
+             ("pybrops.breed.op.log.Logbook", "check_is_Logbook", book),
+             ("pybrops.breed.op.init.InitializationOperator", "check_is_InitializationOperator", ops[0]),
+             ("pybrops.breed.op.psel.ParentSelectionOperator", "check_is_ParentSelectionOperator", ops[1]),
+             ("pybrops.breed.op.mate.MatingOperator", "check_is_MatingOperator", ops[2]),
+             ("pybrops.breed.op.eval.EvaluationOperator", "check_is_EvaluationOperator", ops[3]),
+             ("pybrops.breed.op.ssel.SurvivorSelectionOperator", "check_is_SurvivorSelectionOperator", ops[4])]
+    for mn, fn, good in table:
+        f = getattr(importlib.import_module(mn), fn)
+        try: f(good, "x")
+        except Exception as e: bad.append("%s rejects a valid object (%s)" % (fn, type(e).__name__))
+        for other in (object(), ops[0] if good is not ops[0] else ops[1], None):
+            try:
+                f(other, "x"); bad.append("%s accepts %s" % (fn, type(other).__name__))
+            except TypeError: pass
+            except Exception as e: bad.append("%s raises %s, not TypeError" % (fn, type(e).__name__))
+    return bad
+
 def run_impl(case):
+    import contextlib, io
     from pybrops.breed.arch.RecurrentSelectionBreedingProgram import RecurrentSelectionBreedingProgram
     Init, InitStrict, PSel, Mate, Eval, SSel, Book = _classes()
     ctx = _Ctx()
@@ -234,19 +306,85 @@ def run_impl(case):
     initres = [pick(i) for i in case["init"]]
     snapshot0 = copy.deepcopy(dicts)
     initop = (InitStrict if case.get("init_strict") else Init)(ctx, initres)
+    ops0 = [initop, PSel(ctx, case["ops"]["psel"]), Mate(ctx, case["ops"]["mate"]), Eval(ctx, case["ops"]["eval"]), SSel(ctx, case["ops"]["ssel"])]
     prog = RecurrentSelectionBreedingProgram(
-        initop=initop, pselop=PSel(ctx, case["ops"]["psel"]), mateop=Mate(ctx, case["ops"]["mate"]),
-        evalop=Eval(ctx, case["ops"]["eval"]), sselop=SSel(ctx, case["ops"]["ssel"]), t_max=case["t_max"],
+        initop=ops0[0], pselop=ops0[1], mateop=ops0[2], evalop=ops0[3], sselop=ops0[4], t_max=case["t_max"],
         start_genome=start[0], start_geno=start[1], start_pheno=start[2], start_bval=start[3], start_gmod=start[4])
     book = Book(ctx, case["logs"], case["rep0"])
+    # ---- the constructor stores every argument under its own name; getters read their own attribute; type guards
+    faults = []
+    for n, want in zip(PROP_NAMES[10:15], ops0):
+        if getattr(prog, n) is not want: faults.append("constructor: %s is not the operator handed over" % n)
+    for j, n in enumerate(PROP_NAMES[:5]):
+        if getattr(prog, n) is not start[j]: faults.append("constructor: %s is not the container handed over" % n)
+    if prog.t_cur != 0: faults.append("constructor: t_cur = %r" % (prog.t_cur,))
+    if prog.t_max != case["t_max"]: faults.append("constructor: t_max = %r" % (prog.t_max,))
+    for n in PROP_NAMES[5:10]:
+        if hasattr(prog, "_" + n): faults.append("constructor: working container _%s exists before any reset" % n)
+    faults += _getter_faults(prog) + _type_guard_faults(prog, ops0, book)
     err = None
     ncalls_done = 0
-    try:
-        for nrep, ngen, loginit in case["calls"]:
-            prog.evolve(nrep, ngen, book, loginit=bool(loginit))
-            ncalls_done += 1
-    except Exception as e:                                   # an escaping exception is an observable; the trace so far is kept
-        err = {"type": type(e).__name__, "msg": str(e)[:200]}
+    session = case.get("session")
+    sink = io.StringIO()
+    if session is None:
+        try:
+            for nrep, ngen, loginit in case["calls"]:
+                prog.evolve(nrep, ngen, book, loginit=bool(loginit))
+                ncalls_done += 1
+        except Exception as e:                                   # an escaping exception is an observable; the trace so far is kept
+            err = {"type": type(e).__name__, "msg": str(e)[:200]}
+    else:
+        opcls = {"psel": PSel, "mate": Mate, "eval": Eval, "ssel": SSel}
+        def val(v): return None if v is None else (_Bad([0]) if v == "bad" else dicts[v])
+        def setget(name, v):
+            """the set/get law, on the implementation: an accepting setter makes its own getter return the very object handed over"""
+            setattr(prog, name, v)
+            got = getattr(prog, name)
+            if not (got is v or (isinstance(v, int) and got == v)):
+                f = "after prog.%s = x the getter does not return x" % name
+                if f not in faults: faults.append(f)
+        for ci, c in enumerate(session):
+            ok = True
+            try:
+                k = c[0]
+                if k == "evolve":
+                    extra = {"tag": "x"} if (len(c) > 4 and c[4] == 2) else {}
+                    with contextlib.redirect_stdout(sink):
+                        if len(c) > 4 and c[4]: prog.evolve(c[1], c[2], book, loginit=bool(c[3]), verbose=True, **extra)
+                        elif c[3]: prog.evolve(c[1], c[2], book)                  # loginit left at its default (True)
+                        else: prog.evolve(c[1], c[2], book, loginit=False)
+                elif k == "advance":
+                    with contextlib.redirect_stdout(sink):
+                        if len(c) > 2 and c[2]: prog.advance(c[1], book, verbose=True)
+                        else: prog.advance(c[1], book)
+                elif k == "reset": prog.reset()
+                elif k == "initialize": prog.initialize()
+                elif k == "is_init":
+                    r = prog.is_initialized()
+                    ctx.trace.append({"tag": 30, "t": 1 if r is True else (0 if r is False else 2), "tm": 0, "rep": 0, "roots": [], "dat": [], "misc": []})
+                elif k == "set_start": setget("start_" + S_NAMES[c[1]], val(c[2]))
+                elif k == "set_work": setget(S_NAMES[c[1]], val(c[2]))
+                elif k == "set_t": setget("t_cur", 1.5 if c[1] == "bad" else c[1])
+                elif k == "set_tmax": setget("t_max", "7" if c[1] == "bad" else c[1])
+                elif k == "set_op":
+                    o = opcls[c[1]](ctx, c[2]); o.serial = ci + 1; setget(c[1] + "op", o)
+                elif k == "set_initop":
+                    o = (InitStrict if c[1] else Init)(ctx, [pick(i) for i in c[2]]); o.serial = ci + 1; setget("initop", o)
+                elif k == "book":
+                    book = Book(ctx, c[2], c[1]); book.serial = ci + 1
+                elif k == "copy":
+                    ctx.keep.append(prog); prog = copy.copy(prog)
+                elif k == "deepcopy":
+                    ctx.keep.append(prog); prog = copy.deepcopy(prog)
+                else: raise ValueError("unknown session command %r" % (c,))
+                ncalls_done += 1
+            except ValueError:
+                raise
+            except Exception as e:
+                ok = False
+                if err is None: err = {"type": type(e).__name__, "msg": str(e)[:200], "cmd": ncalls_done}
+            ctx.trace.append({"tag": 31, "t": 1 if ok else 0, "tm": prog.t_cur, "rep": book.rep, "roots": [], "dat": [], "misc": []})
+            faults += [f for f in _getter_faults(prog) if f not in faults]
     st = [prog.start_genome, prog.start_geno, prog.start_pheno, prog.start_bval, prog.start_gmod]
     wk = [getattr(prog, "_" + n, None) for n in ("genome", "geno", "pheno", "bval", "gmod")]
     s_present = [x is not None for x in st]
@@ -258,7 +396,7 @@ def run_impl(case):
     return {"trace": ctx.trace, "err": err, "calls_done": ncalls_done,
             "start": {"present": s_present, "roots": s_roots, "dat": s_dat},
             "work": {"present": w_present, "roots": w_roots, "dat": w_dat},
-            "t_cur": prog.t_cur, "rep": book.rep, "t_max": prog.t_max,
+            "t_cur": prog.t_cur, "rep": book.rep, "t_max": prog.t_max, "faults": faults[:6], "audit": _audit_msgs()[:2],
             "given_unchanged": same, "n_initial_objects": len(leaves) + len(dicts)}
 
 # ------------------------------------------------------------------ Coq emission
@@ -287,13 +425,40 @@ def _oev(tag, ints, roots, dat, misc):
                  E.lst(dat, lambda d: E.lst(d, lambda x: E.pair(E.z(x[0]), E.lst(x[2], E.z)))),
                  E.lst(misc, lambda kv: E.pair(E.z(kv[0]), E.z(kv[1]))))
 
+def _cmd(c, nl, prog):
+    """a session command as a term of Model/C20_Session.v:cmd (dict indices become heap locations: leaves come first)"""
+    k = c[0]
+    sv = lambda v: "VNone" if v is None else ("VBad" if v == "bad" else "(VLoc %s)" % E.nat(nl + v))
+    oz = lambda z: "None" if z == "bad" else "(Some %s)" % E.z(z)
+    if k == "evolve": return "CEvolve %s %s %s" % (E.z(c[1]), E.z(c[2]), E.b(c[3]))
+    if k == "advance": return "CAdvance %s" % E.z(c[1])
+    if k == "reset": return "CReset"
+    if k == "initialize": return "CInitialize"
+    if k == "is_init": return "CIsInit"
+    if k == "set_start": return "CSetStart %s %s" % (E.nat(c[1]), sv(c[2]))
+    if k == "set_work": return "CSetWork %s %s" % (E.nat(c[1]), sv(c[2]))
+    if k == "set_t": return "CSetT %s" % oz(c[1])
+    if k == "set_tmax": return "CSetTmax %s" % oz(c[1])
+    if k == "set_op": return "CSetOp %s %s" % (E.nat(OPS.index(c[1])), prog(c[2]))
+    if k == "set_initop": return "CSetInit %s %s" % (E.b(c[1]), E.lst(c[2], lambda x: E.opt(None if x is None else nl + x, E.nat)))
+    if k == "book": return "CBook %s %s" % (E.z(c[1]), " ".join(prog(c[2][n]) for n in LOGS))
+    if k == "copy": return "CCopy"
+    if k == "deepcopy": return "CDeepCopy"
+    raise ValueError(c)
+
 def emit_case(case, out):
     if "exc" in out:
         return "false"
     prog = lambda p: E.lst(p, _act)
     g = "(mkProgs %s)" % " ".join(["\n      " + prog(case["ops"][k]) for k in OPS] + ["\n      " + prog(case["logs"][k]) for k in LOGS])
-    calls = E.lst(case["calls"], lambda c: E.tup(E.z(c[0]), E.z(c[1]), E.b(c[2])))
-    model = "(run_case %s %s %s %s %s %s %s %s\n    %s)" % (
+    if case.get("session") is None:
+        calls = E.lst(case["calls"], lambda c: E.tup(E.z(c[0]), E.z(c[1]), E.b(c[2])))
+        fn = "run_case"
+    else:
+        nl = len(case["leaves"])
+        calls = E.lst(case["session"], lambda c: "\n      " + _cmd(c, nl, prog))
+        fn = "run_session"
+    model = "(%s %s %s %s %s %s %s %s %s\n    %s)" % (fn,
         E.lst2(case["leaves"], E.z), E.lst(case["dicts"], lambda d: E.lst(d, lambda kv: E.pair(E.z(kv[0]), E.nat(kv[1])))),
         E.lst(case["start"], lambda x: E.opt(x, E.nat)), E.lst(case["init"], lambda x: E.opt(x, E.nat)),
         E.b(case.get("init_strict", False)), E.z(case["t_max"]), E.z(case["rep0"]), calls, g)
@@ -310,6 +475,12 @@ def _actions(case):
         for a in case["ops"][k]: yield ("op", k, a)
     for k in LOGS:
         for a in case["logs"][k]: yield ("log", k, a)
+    for c in case.get("session") or []:
+        if c[0] == "set_op":
+            for a in c[2]: yield ("op", c[1], a)
+        elif c[0] == "book":
+            for k in LOGS:
+                for a in c[2][k]: yield ("log", k, a)
 
 def _uninitialised(case):
     return any(x is None for x in case["start"])
@@ -345,6 +516,214 @@ def _contents(case, di):
     return [[k, list(case["leaves"][li])] for k, li in case["dicts"][di]]
 
 def pred(case, out):
+    if "exc" in out:
+        return ["harness/implementation raised outside evolve: %s: %s" % (out["exc"], out["msg"])]
+    bad = list(out.get("faults", []))
+    bad += _pred_calls(case, out) if case.get("session") is None else _pred_session(case, out)
+    # the audit clause accompanies behavioural failures and, on its own, fails only the (deliberately largest) sentinel case, so that
+    # the smallest failing case the check reports is a behavioural one whenever there is one
+    aud = list(out.get("audit", []))[:2]
+    return bad[:7] + aud if (bad or case.get("audit_sentinel")) else []
+
+# ---- sessions: an independent reading of the property statement, command by command
+def _prog_clean(p, is_op):
+    return not any(a[0] in ("bad", "raise") or (is_op and a[0] == "misc" and MISC_NAMES[a[1]] in ("t_cur", "mcfg", "genome")) for a in p)
+
+def _simulate(case):
+    """expected observable sequence of a session as far as the property statement determines it: the simulation stops at
+    the first run whose outcome depends on an operator programme that raises / returns a non-dict / leaves a parameter name
+    in miscout; a wrong type handed to a setter, a missing start container at reset, a missing working container at advance
+    are expected to raise and leave the state as it is (reset: the containers before the missing one are already copied,
+    needed).  Items: ("call", tag, t, rep|None, t_max, start-at-replicate-entry|None, serial of the receiver) | ("isinit", v) |
+    ("mark", t, rep, start copied by a public reset|None, command succeeds?)."""
+    start = list(case["start"]); init = list(case["init"]); t = 0; tm = case["t_max"]; rep = case["rep0"]
+    work = [False] * NSLOT
+    ops = {k: case["ops"][k] for k in OPS}; logs = {k: case["logs"][k] for k in LOGS}
+    exp = []; ids_known = True
+    who = {TAGS["initialize"]: 0, TAGS["pselect"]: 0, TAGS["mate"]: 0, TAGS["evaluate"]: 0, TAGS["sselect"]: 0, "book": 0}
+    def clean(): return all(_prog_clean(ops[k], True) for k in OPS) and all(_prog_clean(logs[k], False) for k in LOGS)
+    def gens(n):
+        nonlocal t
+        for _ in range(max(n, 0)):
+            for nm in ("pselect", "mate", "evaluate", "sselect"):
+                exp.append(("call", TAGS[nm], t, None, tm, None, who[TAGS[nm]])); exp.append(("call", TAGS["log_" + nm], t, rep, tm, None, who["book"]))
+            t += 1
+    done = 0
+    for ci, c in enumerate(case["session"]):
+        k = c[0]; ok = 1; fresh = None
+        if k == "evolve":
+            if not clean(): break
+            if any(x is None for x in start):
+                exp.append(("call", TAGS["initialize"], 0, None, 0, None, who[TAGS["initialize"]])); start = list(init)
+            if c[1] > 0 and any(x is None for x in start):
+                # the first replicate is entered (logbook counter incremented), reset() stops at the first missing start container
+                rep += 1; ok = 0
+                for j in range(NSLOT):
+                    if start[j] is None: break
+                    work[j] = True
+            else:
+                for _ in range(max(c[1], 0)):
+                    rep += 1; t = 0; work = [True] * NSLOT
+                    exp.append(("call", TAGS["evaluate"], 0, None, tm, list(start), who[TAGS["evaluate"]]))
+                    if c[3]: exp.append(("call", TAGS["log_initialize"], 0, rep, tm, None, who["book"]))
+                    t = 1
+                    gens(c[2])
+        elif k == "advance":
+            if not clean(): break
+            if c[1] > 0 and not all(work): ok = 0
+            else: gens(c[1])
+        elif k == "reset":
+            if any(x is None for x in start):
+                ok = 0
+                for j in range(NSLOT):
+                    if start[j] is None: break
+                    work[j] = True
+            else:
+                work = [True] * NSLOT; t = 0; fresh = list(start)
+        elif k == "initialize":
+            exp.append(("call", TAGS["initialize"], 0, None, 0, None, who[TAGS["initialize"]])); start = list(init)
+        elif k == "is_init":
+            exp.append(("isinit", 1 if all(x is not None for x in start) else 0))
+        elif k == "set_start":
+            if c[2] == "bad": ok = 0
+            else: start[c[1]] = c[2]
+        elif k == "set_work":
+            if c[2] is None or c[2] == "bad": ok = 0
+            else: work[c[1]] = True
+        elif k == "set_t":
+            if c[1] == "bad": ok = 0
+            else: t = c[1]
+        elif k == "set_tmax":
+            if c[1] == "bad": ok = 0
+            else: tm = c[1]
+        elif k == "set_op": ops[c[1]] = c[2]; who[TAGS[{"psel": "pselect", "mate": "mate", "eval": "evaluate", "ssel": "sselect"}[c[1]]]] = ci + 1
+        elif k == "set_initop": init = list(c[2]); who[TAGS["initialize"]] = ci + 1
+        elif k == "book": rep = c[1]; logs = dict(c[2]); who["book"] = ci + 1
+        elif k == "copy": pass
+        elif k == "deepcopy": ids_known = False
+        exp.append(("mark", t, rep, fresh, ok)); done += 1
+    return exp, done == len(case["session"]), {"start": start, "t": t, "tm": tm, "rep": rep, "ids_known": ids_known}
+
+def _pred_session(case, out):
+    bad = []
+    tr = out["trace"]; nl = len(case["leaves"]); sess = case["session"]
+    exp, complete, fin = _simulate(case)
+    # ---- order, time index, replicate counter, t_max, return values, no command fails that the statement says succeeds
+    n_ok = 0
+    for i, e in enumerate(tr):
+        if i >= len(exp): break
+        x = exp[i]; name = TAGNAME.get(e["tag"], str(e["tag"]))
+        if x[0] == "mark":
+            if e["tag"] != 31: bad.append("event %d is %s(t_cur=%s), expected the end of a command" % (i, name, e["t"])); break
+            if e["t"] != x[4]:
+                kc = sum(1 for y in exp[:i] if y[0] == "mark")
+                bad.append(("command %d (%s) raised %s" % (kc, sess[kc][0], (out["err"] or {}).get("type"))) if x[4] else
+                           ("command %d (%s) did not raise: %s" % (kc, sess[kc], "a value of the wrong type was accepted" if sess[kc][0].startswith("set_") else
+                                                                   "a start / working container it needs is missing"))); break
+            if (e["tm"], e["rep"]) != (x[1], x[2]):
+                bad.append("after command %d (%s): t_cur = %s, logbook rep = %s; expected %s, %s" % (
+                    sum(1 for y in exp[:i] if y[0] == "mark"), sess[sum(1 for y in exp[:i] if y[0] == "mark")][0], e["tm"], e["rep"], x[1], x[2])); break
+        elif x[0] == "isinit":
+            if e["tag"] != 30 or e["t"] != x[1]: bad.append("event %d: is_initialized() returned %s, expected %s" % (i, e["t"] if e["tag"] == 30 else name, x[1])); break
+        else:
+            g = (e["tag"], 0 if e["tag"] == TAGS["initialize"] else e["t"], e["rep"] if e["tag"] not in (30, 31) else None)
+            if e["tag"] in (30, 31) or g != (x[1], x[2], x[3]):
+                bad.append("event %d is %s(t_cur=%s, rep=%s), expected %s(t_cur=%s, rep=%s)" % (i, name, e["t"], e["rep"], TAGNAME[x[1]], x[2], x[3])); break
+            if e.get("who", 0) != x[6]:
+                bad.append("event %d (%s) went to the %s installed %s, not to the one in place at this call (installed %s)" % (
+                    i, name, "logbook" if name.startswith("log_") else "operator", "by command %d" % (e.get("who", 0) - 1) if e.get("who", 0) else "at construction",
+                    "by command %d" % (x[6] - 1) if x[6] else "at construction")); break
+            if e["tag"] != TAGS["initialize"] and e["tm"] != x[4]:
+                bad.append("event %d (%s): t_max passed as %r, the programme's t_max is %r" % (i, name, e["tm"], x[4])); break
+        n_ok = i + 1
+    else:
+        if len(tr) < len(exp): bad.append("the session recorded %d events, expected at least %d" % (len(tr), len(exp)))
+    if complete and len(tr) > len(exp) and not bad:
+        bad.append("event %d (%s) is beyond the expected %d events" % (len(exp), TAGNAME.get(tr[len(exp)]["tag"], tr[len(exp)]["tag"]), len(exp)))
+    # ---- hand-over; replicates start fresh and equal to the start state held when the replicate is entered
+    seen = set(range(out["n_initial_objects"]))
+    last = None; mc = None; lastmisc = []; ncmd = 0; pending_fresh = None
+    for i, e in enumerate(tr):
+        if e["tag"] == 30: continue
+        if e["tag"] == 31:
+            if sess[ncmd][0] in ("reset", "set_work", "deepcopy") or e["t"] != 1: last = None
+            if sess[ncmd][0] not in ("is_init", "set_t", "set_tmax", "set_op", "set_initop", "book", "copy", "set_start"): pending_fresh = None
+            if i < n_ok and exp[i][0] == "mark" and exp[i][3] is not None and e["t"] == 1: pending_fresh = exp[i][3]
+            ncmd += 1; continue
+        name = TAGNAME.get(e["tag"], "?")
+        if name == "initialize":
+            if e["misc"] != []:
+                bad.append("event %d: initialize() was not handed miscout = None (interface parameter %s)" % (i, "omitted" if e["misc"] == [[-3, 0]] else "is not None"))
+            continue
+        ids_here = set(e["roots"]) | {x[1] for d in e["dat"] for x in d}
+        repstart = exp[i][5] if i < n_ok and exp[i][0] == "call" else None
+        if repstart is None and pending_fresh is not None and ncmd < len(sess) and sess[ncmd][0] == "advance" and not name.startswith("log_"):
+            repstart = pending_fresh                       # first operator call after a public reset()
+        pending_fresh = None
+        if repstart is not None:
+            src = repstart
+            if len(e["roots"]) != NSLOT or any(r < 0 for r in e["roots"]):
+                bad.append("event %d: replicate start received %r" % (i, e["roots"]))
+            else:
+                stale = sorted(ids_here & seen)
+                if stale:
+                    bad.append("event %d: replicate starts on objects already seen elsewhere (ids %s): not a fresh copy" % (i, stale[:4]))
+                for c in range(NSLOT):
+                    want = _contents(case, src[c])
+                    if [[x[0], x[2]] for x in e["dat"][c]] != want:
+                        bad.append("event %d: replicate starts with container %d = %r, the start state at this call is %r" % (
+                            i, c, [[x[0], x[2]] for x in e["dat"][c]], want)); break
+                    sl = [li for _, li in case["dicts"][src[c]]]
+                    gl = [x[1] for x in e["dat"][c]]
+                    if len(sl) == len(gl) and any((sl[a] == sl[b]) != (gl[a] == gl[b]) for a in range(len(sl)) for b in range(a)):
+                        bad.append("event %d: sharing inside container %d differs from the start state" % (i, c))
+        elif last is not None and not (i >= n_ok and name == "evaluate" and e["t"] == 0):
+            if e["roots"][:NSLOT] != last["roots"][:NSLOT]:
+                bad.append("event %d (%s): receives containers %r, predecessor returned %r" % (i, name, e["roots"][:NSLOT], last["roots"][:NSLOT]))
+            elif e["dat"][:NSLOT] != last["dat"][:NSLOT]:
+                bad.append("event %d (%s): container contents changed between the calls" % (i, name))
+        if name in ("mate", "log_pselect", "log_mate"):
+            if len(e["roots"]) != NSLOT + 1 or mc is None or e["roots"][NSLOT] != mc:
+                bad.append("event %d (%s): mating configuration %r is not the one pselect returned (%r)" % (i, name, e["roots"][NSLOT:], mc))
+        if not name.startswith("log_") and e["misc"] != []:
+            bad.append("event %d (%s): miscout handed over is not a fresh empty dict: %r" % (i, name, e["misc"]))
+        if name.startswith("log_") and e["misc"] != lastmisc:
+            bad.append("event %d (%s): keyword arguments %r, operator's miscout was %r" % (i, name, e["misc"], lastmisc))
+        seen |= ids_here
+        r = e.get("ret")
+        if r is not None:
+            seen |= set(x for x in r["roots"] if x >= 0) | {x[1] for d in r["dat"] for x in d}
+            last = r
+            if name == "pselect" and len(r["roots"]) > NSLOT: mc = r["roots"][NSLOT]
+            if not name.startswith("log_"): lastmisc = r["misc"]
+        if len(bad) >= 6: break
+    # ---- the stored start state, the clock, the logbook at the end
+    if complete and not bad:
+        given = fin["start"]
+        if out["start"]["present"] != [x is not None for x in given]:
+            bad.append("start_* presence %r, expected %r" % (out["start"]["present"], [x is not None for x in given]))
+        else:
+            gi = [x for x in given if x is not None]
+            if fin["ids_known"] and out["start"]["roots"] != [nl + x for x in gi]:
+                bad.append("start_* containers were replaced: ids %r, handed over %r" % (out["start"]["roots"], [nl + x for x in gi]))
+            for j, di in enumerate(gi):
+                if [[x[0], x[2]] for x in out["start"]["dat"][j]] != _contents(case, di):
+                    bad.append("stored start container %d was modified: %r, initially %r" % (j, [[x[0], x[2]] for x in out["start"]["dat"][j]], _contents(case, di)))
+                    break
+        if out["t_max"] != fin["tm"]: bad.append("t_max ends at %r, expected %r" % (out["t_max"], fin["tm"]))
+        if out["t_cur"] != fin["t"]: bad.append("t_cur ends at %r, expected %r" % (out["t_cur"], fin["t"]))
+        if out["rep"] != fin["rep"]: bad.append("logbook rep ends at %r, expected %r" % (out["rep"], fin["rep"]))
+    handed = {c[2] for c in sess if c[0] == "set_work" and isinstance(c[2], int)}      # given to the operators as working containers
+    hl = {li for d in handed for _, li in case["dicts"][d]}
+    handed |= {i for i, d in enumerate(case["dicts"]) if any(li in hl for _, li in d)}   # ... and whatever shares a leaf with them
+    if not all(u for i, u in enumerate(out["given_unchanged"]) if i not in handed):
+        bad.append("an object handed to the constructor / a start_* setter / the initialiser was modified in place")
+    seen_b = []
+    for b in bad:
+        if b not in seen_b: seen_b.append(b)
+    return seen_b[:8]
+
+def _pred_calls(case, out):
     if "exc" in out:
         return ["harness/implementation raised outside evolve: %s: %s" % (out["exc"], out["msg"])]
     bad = []
@@ -446,16 +825,23 @@ def pred(case, out):
 def classify(case, out, clauses):
     return None            # no open finding: C20-initialize-miscout was repaired in /repo (b17284d4) and is re-executed as a fixed entry
 
+def _evolves(case):
+    if case.get("session") is None: return [list(c) for c in case["calls"]]
+    return [[c[1], c[2], c[3]] for c in case["session"] if c[0] == "evolve"]
+
 def nontrivial(case, out):
     if "exc" in out or out["err"] is not None: return False
-    big = any(c[0] >= 2 and c[1] >= 1 for c in case["calls"])
+    big = any(c[0] >= 2 and c[1] >= 1 for c in _evolves(case))
     mut = any(a[0] in MUTATING for _, _, a in _actions(case))
     return big and mut
 
 def describe(case, out):
     kinds = sorted({a[0] for _, _, a in _actions(case)})
-    return {"nrep": str([c[0] for c in case["calls"]]), "ngen": str([c[1] for c in case["calls"]]),
-            "loginit": str([c[2] for c in case["calls"]]), "ncalls": len(case["calls"]),
+    ev = _evolves(case)
+    sess = case.get("session")
+    return {"nrep": str([c[0] for c in ev][:3]), "ngen": str([c[1] for c in ev][:3]),
+            "loginit": str([c[2] for c in ev][:3]), "ncalls": len(ev),
+            "session": "no" if sess is None else ",".join(sorted({c[0] for c in sess})),
             "initialised": "given" if not _uninitialised(case) else ("strict-initop" if case.get("init_strict") else
                            ("initop" if all(x is not None for x in case["init"]) else "initop-incomplete")),
             "aliased_start": len(set(x for x in case["start"] if x is not None)) < sum(x is not None for x in case["start"]),
@@ -466,6 +852,20 @@ def describe(case, out):
 def shrink(case, fails):
     """drop evolve calls, then actions, then shorten counts while the predicate still fails"""
     cur = copy.deepcopy(case)
+    if cur.get("session") is not None:
+        j = len(cur["session"]) - 1
+        while j >= 0 and len(cur["session"]) > 1:
+            t = copy.deepcopy(cur); del t["session"][j]
+            if fails(t): cur = t
+            j -= 1
+        for grp, names in (("ops", OPS), ("logs", LOGS)):
+            for k in names:
+                j = 0
+                while j < len(cur[grp][k]):
+                    t = copy.deepcopy(cur); del t[grp][k][j]
+                    if fails(t): cur = t
+                    else: j += 1
+        return cur
     while len(cur["calls"]) > 1:
         t = copy.deepcopy(cur); t["calls"] = t["calls"][:-1]
         if fails(t): cur = t
@@ -582,6 +982,200 @@ def _systematic():
     c["ops"]["ssel"] = [["unstash", 3, 0], ["sett", 3, 2]]; out.append(c)
     return out
 
+# ---- sessions
+def _sbase():
+    """_base() with two more dicts on private leaves (7, 8: handed to the working-container setters) and one spare start dict (6)"""
+    c = _base()
+    c["leaves"] = c["leaves"] + [[7], [8, 8]]
+    c["dicts"] = c["dicts"] + [[[0, 2], [2, 0]], [[0, 4]], [[1, 5], [2, 5]]]
+    c["calls"] = []
+    return c
+
+def _systematic_sessions():
+    out = []
+    def S(sess, **kw):
+        c = _sbase(); c["session"] = sess
+        for k, v in kw.items():
+            if k in ("ops", "logs"): c[k].update(v)
+            else: c[k] = v
+        out.append(c); return c
+    mut = {"eval": [["app", 0, 0, 9], ["sett", 3, 1]], "ssel": [["del", 1, 1], ["appt", 2, 1]]}
+    ev = lambda n, g, li=1, v=0: ["evolve", n, g, li, v]
+    # start containers replaced through the setters between two runs: the second run starts from the NEW start state
+    for j in range(NSLOT):
+        S([ev(2, 1), ["set_start", j, 5], ev(2, 1, 0)], ops=mut)
+        S([ev(1, 1), ["set_start", j, None], ["is_init"], ev(1, 1)], ops=mut)                  # -> initop consulted again
+        S([["set_start", j, None], ["is_init"], ["reset"], ["advance", 1]])                      # reset fails at slot j, partial state
+        S([["set_start", j, "bad"], ["is_init"], ev(1, 1)])
+        S([ev(1, 0, 0), ["set_work", j, 7], ["advance", 1], ["set_work", j, 8], ["advance", 1]], ops=mut)
+        S([ev(1, 0, 0), ["set_work", j, None], ["set_work", j, "bad"], ["advance", 1]])
+    # start state given through the setters only; initop must not be consulted
+    S([["is_init"]] + [["set_start", j, j] for j in range(NSLOT)] + [["is_init"], ev(2, 1)], start=[None] * NSLOT, ops=mut)
+    S([["set_start", j, j] for j in range(4)] + [["is_init"], ev(1, 1), ["is_init"]], start=[None] * NSLOT)
+    S([["initialize"], ["is_init"], ev(2, 1, 0)], ops=mut)                                      # explicit initialize overwrites the start state
+    S([["initialize"], ["initialize"], ["reset"], ["advance", 2]], start=[None] * NSLOT, init_strict=True)
+    S([["set_initop", 0, [5, 4, 3, 2, 1]], ["initialize"], ev(1, 1)], start=[None] * NSLOT)
+    S([["set_initop", 1, [5, 4, None, 2, 1]], ev(1, 1), ["set_initop", 0, [1, 2, 3, 4, 5]], ev(1, 1)], start=[None] * NSLOT)
+    # advance / reset as public calls; the clock through its setter
+    S([ev(1, 1), ["advance", 2], ["advance", 0], ["advance", -1], ["advance", 1, 1]], ops=mut)
+    S([["advance", 1]]); S([["advance", 0]]); S([ev(0, 2), ["advance", 1]])
+    S([["reset"], ["advance", 2]], ops=mut)
+    S([["reset"], ["set_t", 5], ["advance", 2], ["reset"], ["advance", 1]], ops=mut)
+    S([ev(2, 1), ["reset"], ["reset"], ["advance", 1]], ops=mut)
+    # the clock put back to 0 by hand on used working containers: reset / the next run must still start from fresh copies
+    S([ev(1, 1), ["set_t", 0], ["reset"], ["advance", 1]], ops=mut)
+    S([ev(2, 1), ["set_t", 0], ev(2, 1, 0)], ops=mut)
+    S([["reset"], ["advance", 1], ["set_t", 0], ["reset"], ["advance", 1]], ops=mut)
+    S([["set_t", 7], ev(1, 1), ["set_t", -3], ["advance", 2], ["set_t", "bad"], ["advance", 1]])
+    S([["set_tmax", 9], ev(1, 1), ["set_tmax", 0], ["advance", 1], ["set_tmax", "bad"], ["advance", 1], ["set_tmax", -2], ev(1, 1, 0)])
+    # operators replaced between runs; a run that raises in the middle is followed by a complete one
+    for k in OPS:
+        S([ev(1, 1), ["set_op", k, [["app", 0, 0, 5], ["sett", 4, 2]]], ev(2, 1), ["set_op", k, []], ["advance", 1]], ops=mut)
+        S([ev(2, 2), ["set_op", k, [["app", 1, 0, 3]]], ev(2, 2, 0)], ops={k: [["app", 0, 0, 1], ["raise"]]})
+        S([ev(1, 2), ["set_op", k, []], ["advance", 1], ev(1, 1)], ops={k: [["bad", 2]]})
+    for k in LOGS:
+        S([ev(1, 1), ["book", 5, {n: ([["app", 0, 0, 4]] if n == k else []) for n in LOGS}], ev(2, 1), ["advance", 1]],
+          logs={k: [["app", 1, 0, 2], ["raise"]]})
+    S([ev(2, 1), ["book", -4, {n: [] for n in LOGS}], ev(1, 0), ["book", 0, {n: [["appt", 0, 0]] for n in LOGS}], ev(1, 1)], rep0=3)
+    # operators that remember what they received, across runs and across a replaced start state
+    S([ev(2, 1), ["set_start", 0, 5], ev(2, 1), ["advance", 1]],
+      ops={"eval": [["stash", 0, 0], ["app", 0, 0, 1]], "ssel": [["unstash", 1, 0], ["app", 1, 0, 2], ["stash", 1, 1]], "psel": [["unstash", 2, 1], ["sett", 2, 2]]})
+    # copies of the programme object
+    S([ev(1, 1), ["copy"], ["advance", 1], ["set_start", 1, 5], ev(2, 1)], ops=mut)
+    S([["copy"], ev(2, 1), ["copy"], ["reset"], ["advance", 1]], ops=mut)
+    S([ev(1, 1), ["deepcopy"], ["advance", 1], ev(2, 1)], ops=mut)
+    S([["deepcopy"], ev(2, 1), ["deepcopy"], ["is_init"], ["reset"], ["advance", 1]], ops=mut, start=[0, 0, 2, 2, 4])
+    S([ev(1, 1), ["set_work", 1, 7], ["set_work", 2, 7], ["deepcopy"], ["advance", 1]],
+      ops={"eval": [["stash", 0, 0]], "psel": [["unstash", 3, 0], ["app", 3, 0, 6]]})
+    S([["deepcopy"], ev(1, 1)], start=[None] * NSLOT)
+    # many generations / many replicates (clock and replicate counter well beyond a handful)
+    S([ev(1, 24, 0), ["advance", 3]], ops={"ssel": [["appt", 0, 0]]})
+    S([ev(14, 1, 1), ev(3, 0, 0)], ops={"eval": [["app", 1, 0, 1]]}, rep0=250)
+    # verbose runs, extra keyword arguments, default loginit
+    S([ev(2, 2, 1, 1), ev(1, 1, 0, 2), ["advance", 1, 1]], ops=mut)
+    return out
+
+def _rand_session(rng, err_ok):
+    case = _rand_case(rng, [], err_ok)
+    nl0 = len(case["leaves"]); nd0 = len(case["dicts"])
+    # two dicts on private leaves for the working-container setters
+    case["leaves"] = case["leaves"] + [[rng.randint(-3, 9) for _ in range(rng.randint(0, 2))] for _ in range(2)]
+    case["dicts"] = case["dicts"] + [[[k, nl0 + rng.randrange(2)] for k in rng.sample([0, 1, 2], rng.randint(0, 3))] for _ in range(2)]
+    pool = [nd0, nd0 + 1]
+    sess = []
+    for _ in range(rng.choice([2, 3, 4, 5, 6, 7])):
+        r = rng.random()
+        if r < 0.34: sess.append(["evolve", rng.choice([0, 1, 2, 2, 3]), rng.choice([0, 1, 1, 2, 3]), rng.randint(0, 1), rng.choice([0, 0, 0, 1, 2])])
+        elif r < 0.46: sess.append(["advance", rng.choice([0, 1, 1, 2]), rng.choice([0, 0, 1])])
+        elif r < 0.52: sess.append(["reset"])
+        elif r < 0.56: sess.append(["initialize"])
+        elif r < 0.62: sess.append(["is_init"])
+        elif r < 0.72: sess.append(["set_start", rng.randrange(NSLOT), rng.choice([rng.randrange(nd0)] * 4 + [None] + (["bad"] if err_ok else []))])
+        elif r < 0.77: sess.append(["set_work", rng.randrange(NSLOT), rng.choice(pool * 3 + ([None, "bad"] if err_ok else []))])
+        elif r < 0.81: sess.append(["set_t", rng.choice([0, 1, 4, -2] + (["bad"] if err_ok else []))])
+        elif r < 0.84: sess.append(["set_tmax", rng.choice([0, 3, 11, -1] + (["bad"] if err_ok else []))])
+        elif r < 0.90: sess.append(["set_op", rng.choice(OPS), _rand_prog(rng, False, err_ok)])
+        elif r < 0.92: sess.append(["set_initop", rng.randint(0, 1), [rng.randrange(nd0) if rng.random() < 0.93 or not err_ok else None for _ in range(NSLOT)]])
+        elif r < 0.95: sess.append(["book", rng.choice([0, 2, -1]), {k: _rand_prog(rng, True, err_ok, 2) if rng.random() < 0.4 else [] for k in LOGS}])
+        elif r < 0.975: sess.append(["copy"])
+        else: sess.append(["deepcopy"])
+    if not any(c[0] == "evolve" for c in sess):
+        sess.insert(rng.randrange(len(sess) + 1), ["evolve", rng.choice([1, 2]), rng.choice([1, 2]), rng.randint(0, 1), 0])
+    case["session"] = sess
+    return case
+
+# ---- entry points of the anchored modules, enumerated at run time (fail closed)
+COVERED = {
+    "pybrops.breed.arch.RecurrentSelectionBreedingProgram": {
+        "RecurrentSelectionBreedingProgram": {
+            "__init__": ["self", "initop", "pselop", "mateop", "evalop", "sselop", "t_max", "start_genome", "start_geno", "start_pheno",
+                         "start_bval", "start_gmod", "kwargs"],
+            "initialize": ["self", "kwargs"], "is_initialized": ["self", "kwargs"], "reset": ["self", "kwargs"],
+            "advance": ["self", "ngen", "lbook", "verbose", "kwargs"], "evolve": ["self", "nrep", "ngen", "lbook", "loginit", "verbose", "kwargs"],
+            "properties": PROP_NAMES},
+        "check_is_RecurrentSelectionBreedingProgram": ["v", "vname"]},
+    "pybrops.breed.arch.BreedingProgram": {"BreedingProgram": "abstract", "check_is_BreedingProgram": ["v", "vname"]},
+    "pybrops.breed.op.log.Logbook": {"Logbook": "abstract", "check_is_Logbook": ["v", "vname"]},
+    "pybrops.breed.op.init.InitializationOperator": {"InitializationOperator": "abstract", "check_is_InitializationOperator": ["v", "vname"]},
+    "pybrops.breed.op.psel.ParentSelectionOperator": {"ParentSelectionOperator": "abstract", "check_is_ParentSelectionOperator": ["v", "vname"]},
+    "pybrops.breed.op.mate.MatingOperator": {"MatingOperator": "abstract", "check_is_MatingOperator": ["v", "vname"]},
+    "pybrops.breed.op.eval.EvaluationOperator": {"EvaluationOperator": "abstract", "check_is_EvaluationOperator": ["v", "vname"]},
+    "pybrops.breed.op.ssel.SurvivorSelectionOperator": {"SurvivorSelectionOperator": "abstract", "check_is_SurvivorSelectionOperator": ["v", "vname"]},
+}
+ABSTRACT = {          # abstract members the instrumented subclasses implement, with the parameter lists the programme's keyword calls rely on
+    "BreedingProgram": {n: None for n in PROP_NAMES[:5] + PROP_NAMES[10:15] + ["initialize", "is_initialized", "reset", "advance", "evolve"]},
+    "Logbook": {"data": None, "rep": None, "reset": ["self"], "write": ["self", "filename"],
+                "log_initialize": ["self", "genome", "geno", "pheno", "bval", "gmod", "t_cur", "t_max", "kwargs"],
+                "log_pselect": ["self", "mcfg", "genome", "geno", "pheno", "bval", "gmod", "t_cur", "t_max", "kwargs"],
+                "log_mate": ["self", "genome", "geno", "pheno", "bval", "gmod", "t_cur", "t_max", "kwargs"],
+                "log_evaluate": ["self", "genome", "geno", "pheno", "bval", "gmod", "t_cur", "t_max", "kwargs"],
+                "log_sselect": ["self", "genome", "geno", "pheno", "bval", "gmod", "t_cur", "t_max", "kwargs"]},
+    "InitializationOperator": {"initialize": ["self", "miscout", "kwargs"]},
+    "ParentSelectionOperator": {"pselect": ["self", "genome", "geno", "pheno", "bval", "gmod", "t_cur", "t_max", "miscout", "kwargs"]},
+    "MatingOperator": {"mate": ["self", "mcfg", "genome", "geno", "pheno", "bval", "gmod", "t_cur", "t_max", "miscout", "kwargs"]},
+    "EvaluationOperator": {"evaluate": ["self", "genome", "geno", "pheno", "bval", "gmod", "t_cur", "t_max", "miscout", "kwargs"]},
+    "SurvivorSelectionOperator": {"sselect": ["self", "genome", "geno", "pheno", "bval", "gmod", "t_cur", "t_max", "miscout", "kwargs"]},
+}
+INHERITED_ABSTRACT = {"BreedingProgram": PROP_NAMES[5:10] + ["t_cur", "t_max"]}      # declared by BreedingNode (not anchored)
+SKIPPED = {
+    "Logbook.reset / Logbook.write / Logbook.data": "never called by the programme (no call in the anchored code; the translator of the method "
+                                                    "bodies would reject one)",
+    "**kwargs of __init__": "forwarded to BreedingProgram/BreedingNode constructors which ignore them",
+    "**kwargs of initialize / is_initialized / reset": "initialize forwards them to the initialisation operator unchanged; the others ignore them",
+    "BreedingNode (base of BreedingProgram)": "not anchored; defines no behaviour used by the loop",
+}
+
+def _audit():
+    import importlib, inspect
+    bad = []
+    for mn, members in COVERED.items():
+        mod = importlib.import_module(mn)
+        have = {n: v for n, v in vars(mod).items() if (inspect.isfunction(v) or inspect.isclass(v)) and getattr(v, "__module__", None) == mn
+                and not n.startswith("_")}
+        for n in sorted(set(have) - set(members)): bad.append("%s.%s is new and not classified" % (mn, n))
+        for n, want in members.items():
+            if n not in have: bad.append("%s.%s disappeared" % (mn, n)); continue
+            v = have[n]
+            if inspect.isfunction(v):
+                got = list(inspect.signature(v).parameters)
+                if got != want: bad.append("%s.%s has parameters %s, driven with %s" % (mn, n, got, want))
+            elif want == "abstract":
+                ab = sorted(getattr(v, "__abstractmethods__", ()))
+                if ab != sorted(list(ABSTRACT[n]) + INHERITED_ABSTRACT.get(n, [])): bad.append("%s.%s has abstract members %s, the instrumented subclass implements %s" % (mn, n, ab, sorted(ABSTRACT[n])))
+                pub = sorted(k for k in vars(v) if not k.startswith("_"))
+                if pub != sorted(ABSTRACT[n]): bad.append("%s.%s has public members %s, classified: %s" % (mn, n, pub, sorted(ABSTRACT[n])))
+                for meth, sig in ABSTRACT[n].items():
+                    if sig is not None and hasattr(v, meth):
+                        got = list(inspect.signature(getattr(v, meth)).parameters)
+                        if got != sig: bad.append("%s.%s.%s has parameters %s, classified %s" % (mn, n, meth, got, sig))
+            else:
+                pub = sorted(k for k in vars(v) if not k.startswith("_"))
+                meths = sorted(k for k in want if k not in ("__init__", "properties"))
+                if pub != sorted(meths + want["properties"]):
+                    bad.append("%s.%s has public members %s, the generators drive %s" % (mn, n, pub, sorted(meths + want["properties"])))
+                for k in want["properties"]:
+                    pr = vars(v).get(k)
+                    if not isinstance(pr, property) or pr.fset is None or pr.fget is None: bad.append("%s.%s.%s is not a read/write property" % (mn, n, k))
+                for meth in ["__init__"] + meths:
+                    if meth in vars(v):
+                        got = list(inspect.signature(vars(v)[meth]).parameters)
+                        if got != want[meth]: bad.append("%s.%s.%s has parameters %s, driven with %s" % (mn, n, meth, got, want[meth]))
+                for special in ("__copy__", "__deepcopy__", "__reduce__", "__reduce_ex__", "__getstate__", "__setstate__", "__slots__", "__getattr__", "__setattr__"):
+                    if any(special in vars(k) for k in v.__mro__[:-1]):
+                        bad.append("%s.%s (or a base) defines %s: the session model assumes Python's generic copy/attribute protocol" % (mn, n, special))
+    return bad
+
+_AUDIT = None
+def _audit_msgs():
+    """fail closed WITHOUT hiding the behavioural evidence: an unclassified entry point makes the predicate fail on the sentinel
+    case (and is appended to the clauses of every behaviourally failing case), so the check reports a violation either way and
+    the concrete replay is a behavioural one whenever the change has a behavioural effect on the generated cases"""
+    global _AUDIT
+    if _AUDIT is None:
+        try: _AUDIT = ["entry-point audit: " + m for m in _audit()]
+        except Exception as e: _AUDIT = ["entry-point audit could not run: %s: %s" % (type(e).__name__, e)]
+    return _AUDIT
+
 def gen_cases(rng, tier):
     cases = _systematic()
     # sweep of the loop counts with clean (error-free) programs
@@ -605,11 +1199,19 @@ def gen_cases(rng, tier):
         ncalls = rng.choice([1, 1, 1, 2])
         calls = [[rng.choice([0, 1, 2, 2, 3]), rng.choice([0, 1, 1, 2, 3]), rng.randint(0, 1)] for _ in range(ncalls)]
         cases.append(_rand_case(rng, calls, rng.random() < 0.35))
+    cases += _systematic_sessions()
+    sentinel = copy.deepcopy(pure)
+    sentinel["audit_sentinel"] = "the entry-point audit of the anchored modules is reported on this case. " * 300
+    cases.append(sentinel)
+    for _ in range(90 if tier == "quick" else 2500):
+        cases.append(_rand_session(rng, rng.random() < 0.3))
     return cases
 
 
 def translate(repo, gen_dir):
-    """regenerate Gen/C20_Program.v: the bodies of reset/is_initialized/initialize/advance/evolve translated statement by
-    statement into the model's combinators (fail closed); Proofs/C20_Program.v ties it to the hand model by reflexivity"""
-    from translate import c20_program
-    return [c20_program.translate(repo, gen_dir)]
+    """regenerate Gen/C20_Program.v (the bodies of reset/is_initialized/initialize/advance/evolve translated statement by
+    statement into the model's combinators) and Gen/C20_Kernel.v (the attribute layer: getter / setter / type check of each of
+    the seventeen properties, the constructor's assignments, the operator type guards), both fail closed;
+    Proofs/C20_Program.v and Proofs/C20_Kernel.v tie them to the hand model by reflexivity"""
+    from translate import c20_program, c20_kernel
+    return [c20_program.translate(repo, gen_dir), c20_kernel.translate(repo, gen_dir)]
